@@ -80,7 +80,8 @@ fn c_rounding(v: &Value) -> fo::RoundingOptions {
 }
 fn c_tsro(v: &Value) -> fo::ToStringRoundingOptions {
     let (is_minute, digits) = match v.get("precision") {
-        Some(p) if p.as_str() == Some("minute") => (true, None),
+        // ("digits" next to "minute": the FFI struct can carry both at once - the minute flag decides)
+        Some(p) if p.as_str() == Some("minute") => (true, v.get("digits").and_then(|d| d.as_i64()).map(|d| d as u8)),
         Some(p) if p.is_i64() => (false, Some(p.as_i64().unwrap() as u8)),
         _ => (false, None),
     };
